@@ -308,6 +308,9 @@ def extra_cells(m, g):
         ("bsdicrypt", "evencount", L(b"_A/..") + S(4), [0] + [8] * 4 + [1] * 4),
         # empty salts and the longest settings whose result still fits the output field
         ("md5crypt", "emptysalt", L(b"$1$$"), [0] * 4),
+        ("yescrypt", "emptysalt", L(b"$y$j75$"), [0] * 3 + [8] * 3 + [0]),
+        ("gost_yescrypt", "emptysalt", L(b"$gy$j75$"), [0] * 4 + [8] * 3 + [0]),
+        ("scrypt", "emptysalt", L(b"$7$CU..../...."), [0] * 3 + [8] * 11),
         ("sha256crypt", "emptysalt", L(b"$5$$"), [0] * 4),
         ("sha512crypt", "emptysalt", L(b"$6$$"), [0] * 4),
         ("sha512crypt", "rounds-max+emptysalt", L(b"$6$rounds=999999999$"), [0] * 10 + [8] * 9 + [0]),
@@ -339,6 +342,12 @@ def extra_cells(m, g):
     return cells, meta
 
 
+def _interpret_kdf(cfg):
+    cfg["contracts"].pop("yescrypt_kdf", None)
+    cfg["contracts"]["yescrypt_kdf_body"] = [{"op": "read", "ptr": 2, "len": 3}, {"op": "read", "ptr": 4, "len": 5},
+                                             {"op": "write", "ptr": 12, "len": 13, "prov": "digest"}, {"op": "ret", "lo": -3, "hi": 0}]
+
+
 def run_traced(tier="quick"):
     """the composition cells again (two patterns per method in the quick tier), with read tracing of the phrase and the
     setting: per cell, the union over all explored paths of the offsets that loads, digest-contract reads, formatted-copy
@@ -365,6 +374,9 @@ def run_traced(tier="quick"):
     from . import unit_contracts
     for k in unit_contracts.CONTRACTS:
         cfg["contracts"].pop(k, None)
+    # yescrypt_kdf itself (parameter checks, the pre-hash of the passphrase for larger costs) is interpreted here; what it
+    # calls, yescrypt_kdf_body, is the contract: (passwd, passwdlen) and (salt, saltlen) are read, buf[0..buflen) is written
+    _interpret_kdf(cfg)
     cfg["traceRegions"] = ["phrase", "setting"]
     t0 = time.time()
     res = xai.run_cells(info["bc"], cells, cfg, chunk=1)
@@ -409,6 +421,7 @@ def run_rehash(tier="quick"):
     cfg["track"] = TRACK
     for k in unit_contracts.CONTRACTS:
         cfg["contracts"].pop(k, None)
+    _interpret_kdf(cfg)     # the same configuration as the first run: the two traces are compared event by event
     cfg["traceRegions"] = ["phrase", "setting"]
     t0 = time.time()
     res = xai.run_cells(info["bc"], cells, cfg, chunk=1)
